@@ -20,6 +20,7 @@ type StoreData struct {
 	val0   *Term
 	log    []storeWrite
 	reads  int
+	gets   int // Get/Has calls made through this scope (gas is charged per access)
 }
 
 type CtxData struct {
@@ -116,6 +117,7 @@ func (it *Interp) fullKey(v *StoreView, key *StrV) *StrV {
 // storeGet returns the value (nil *StrV if absent).
 func (it *Interp) storeGet(v *StoreView, key *StrV) *StrV {
 	k := it.fullKey(v, key)
+	v.base.gets++
 	for s := v.base; s != nil; s = s.parent {
 		for i := len(s.log) - 1; i >= 0; i-- {
 			w := s.log[i]
